@@ -629,6 +629,10 @@ def run(ctx: Ctx):
     r_limits(ctx, model)
     r_spline(ctx, model)
     r_data(ctx, model)
+    from ..sites import no_memoisation
+    ctx.rule("K-fresh: no caching decorator on any function of pygaps.characterisation.")
+    no_memoisation(ctx, load(ctx.root), "C18", "K-fresh", ('pygaps.characterisation.',),
+                   "only the write-once kernel table may be cached (checked in C04)")
 
 
 META = {
